@@ -217,7 +217,72 @@ func reuseBin(what string, used, fresh binKey, encA, encB []byte, use func(k any
 	}
 	if a, b := use(used), use(fresh); !lib.Eq(a, b) {
 		reuseViol(what, "decode-into-used-differs", "stage", "use", "used_object", a, "fresh_object", b, "encA", encA, "encB", encB)
+		return
 	}
+	// crafted encodings: B with its first 32 octets (a seed / rho field in
+	// most key formats) replaced by zeros - equal to the same field of a
+	// never-used object - and by A's: a decoder that skips work when a field
+	// "has not changed" then skips it for the wrong object.  Decoded into a
+	// never-used object and into the used one; both must encode the same and
+	// hand out the same public key.  (Decoders with a consistency check may
+	// refuse the crafted string: both must refuse alike.)
+	if len(encB) >= 64 && len(encA) >= 32 {
+		for vi, head := range [][]byte{make([]byte, 32), encA[:32]} {
+			crafted := lib.Clone(encB)
+			copy(crafted, head)
+			if lib.Eq(crafted, encB) {
+				continue
+			}
+			// only for library key types handed in directly (the harness's own
+			// adapter types carry configuration a zero value lacks)
+			if _, adapter := fresh.(interface{ inner() any }); adapter || reflect.TypeOf(fresh).Elem().Kind() != reflect.Struct {
+				break
+			}
+			neverUsed := reflect.New(reflect.TypeOf(fresh).Elem()).Interface().(binKey)
+			var e1, e2 error
+			var m1, m2, p1, p2 []byte
+			if pn := lib.Try("reuse:crafted:"+what, crafted, func() {
+				e1, e2 = used.UnmarshalBinary(lib.Clone(crafted)), neverUsed.UnmarshalBinary(lib.Clone(crafted))
+				if e1 != nil || e2 != nil {
+					return
+				}
+				m1, _ = used.MarshalBinary()
+				m2, _ = neverUsed.MarshalBinary()
+				if pr := handedOutPublic(used); pr != nil {
+					p1, p2 = pr, handedOutPublic(neverUsed)
+				}
+			}); pn != nil {
+				break
+			}
+			lib.Count("reuse:crafted-encodings")
+			if (e1 == nil) != (e2 == nil) || !lib.Eq(m1, m2) || !lib.Eq(p1, p2) {
+				reuseViol(what, "decode-into-used-differs", "stage", "crafted-encoding", "variant", []string{"first 32 octets zero", "first 32 octets of A"}[vi],
+					"err_used", e1, "err_never_used", e2, "same_encoding", lib.Eq(m1, m2), "same_public_key", lib.Eq(p1, p2), "encA", encA, "crafted", crafted)
+				break
+			}
+		}
+		// leave the objects holding B again
+		_ = used.UnmarshalBinary(encB)
+	}
+}
+
+// handedOutPublic marshals what Public() of the key object returns (nil if
+// there is no such method or it cannot be marshalled).
+func handedOutPublic(k any) []byte {
+	obj := k
+	if w, ok := k.(interface{ inner() any }); ok {
+		obj = w.inner()
+	}
+	m := reflect.ValueOf(obj).MethodByName("Public")
+	if !m.IsValid() || m.Type().NumIn() != 0 || m.Type().NumOut() != 1 {
+		return nil
+	}
+	pub := m.Call(nil)[0].Interface()
+	if mb, ok := pub.(encoding.BinaryMarshaler); ok {
+		b, _ := mb.MarshalBinary()
+		return b
+	}
+	return nil
 }
 
 func TestVerifReuse(t *testing.T) {
